@@ -33,6 +33,11 @@ MODEL_B = """<?xml version="1.0" encoding="UTF-8"?>
 <informationRequirement><requiredInput href="#_Day"/></informationRequirement>
 <literalExpression><text>[string(date(Day)), date(Day).weekday, string(date and time(Day + "T10:00:00@Europe/Warsaw") - date and time("2020-01-01T00:00:00Z")), date and time(Day + "T12:00:00@America/New_York").time offset, years and months duration(date("2000-02-29"), date(Day))]</text></literalExpression>
 </decision>
+<decision name="Iter" id="_Iter"><variable name="Iter"/>
+<informationRequirement><requiredInput href="#_Num"/></informationRequirement>
+<informationRequirement><requiredInput href="#_Txt"/></informationRequirement>
+<literalExpression><text>[for i in 1..(modulo(floor(Num), 7) + 2) return i * i, for i in 1..3, j in [Num, 2] return i * j, some x in [1, 2, 3] satisfies x > modulo(floor(Num), 3), every x in [1, 2, 3] satisfies x > modulo(floor(Num), 3), [1, 2, 3, 4, 5][item > modulo(floor(Num), 5)], [{a: 1, b: Txt}, {a: Num, b: "q"}][a > 1].b, sort([Num, 3, 1000], function(a, b) a &lt; b), {a: Num, b: a + 1, c: [a, b]}.c, (function(p, q) p - q)(q: 1, p: Num), if Num > 500000 then "big" else Txt, Num in [1..500000], Num between 10 and 1000, string length(Txt) instance of number]</text></literalExpression>
+</decision>
 <decision name="All" id="_All"><variable name="All"/>
 <informationRequirement><requiredDecision href="#_Regex"/></informationRequirement>
 <informationRequirement><requiredDecision href="#_Numeric"/></informationRequirement>
@@ -57,13 +62,13 @@ MODEL_B = """<?xml version="1.0" encoding="UTF-8"?>
 
 
 def build_workload(rng):
-    models, calls, services = [], [], [[0, "Svc"]]
+    models, calls, services = [], [], [[0, "Svc"], [0, "Iter"]]
     models.append(MODEL_B)
     txts = ["abc123", "hello", "x9y8z7", "żółć", "aeiou", "UPPER", "a1", ""]
     days = ["2021-03-27", "2020-02-29", "1999-12-31", "2021-10-31", "2024-07-15"]
     for k in range(14):
         inp = [["Txt", {"s": rng.choice(txts)}], ["Num", {"n": str(rng.randint(1, 10 ** 6)) + "." + str(rng.randint(0, 999))}], ["Day", {"s": rng.choice(days)}]]
-        for inv in ("Regex", "Numeric", "Temporal", "All", "Svc"):
+        for inv in ("Regex", "Numeric", "Temporal", "Iter", "All", "Svc"):
             calls.append([0, inv, inp])
     # generated graphs: nested decisions + BKMs + services + tables (read locks nest several levels deep)
     for k, shape in enumerate(["mixed", "service-and-direct", "bkm-chain"]):
@@ -91,7 +96,7 @@ def run(rep, tier, seed):
     reps = 40 if tier == "quick" else 1500
     tsan_reps = 4 if tier == "quick" else 40
     rep.rule = (
-        "%d repetitions (thread counts 2, 3, 4, 8, 16 in turn; 60-400 calls per thread) of seeded call permutations over 4 shared evaluators (regular-expression, numeric, temporal-with-zones decisions, "
+        "%d repetitions (thread counts 2, 3, 4, 8, 16 in turn; 60-400 calls per thread) of seeded call permutations over 4 shared evaluators (regular-expression, numeric, temporal-with-zones decisions, a decision made of for / some / every / filter / sort / function literal / context / named invocation / if / in / between / instance of, "
         "a boxed context using a knowledge model, a decision service; generated graphs with nested decisions, BKM chains, tables and services), with seeded yields / spins / sleeps at the hook between lock "
         "acquisitions; then 6 hammer rounds per repetition (all threads call one invocable with 2-4 alternating inputs, identical inputs recurring, no delays); each repetition ends with 3 rendezvous rounds (K = thread count evaluations held inside the evaluator at once); %d repetitions on the ThreadSanitizer build. Distinct = order signature of "
         "the logical-clock event log; non-trivial = repetition in which calls of different threads overlapped." % (reps, tsan_reps)
@@ -141,7 +146,7 @@ def run(rep, tier, seed):
             sigs.add(res["order_signature"])
         if res["mismatch_count"]:
             m = res["mismatches"][0]
-            rep.violation("result-differs-from-sequential", "%d of %d concurrent calls differ from the sequential result, e.g. %s" % (res["mismatch_count"], res["calls"], json.dumps(m)[:400]), dict(one, expected=m.get("expected"), observed=m.get("observed")))
+            rep.violation("result-differs-from-sequential", "%d of %d concurrent calls differ from the sequential result, e.g. %s" % (res["mismatch_count"], res["calls"] + res.get("hammer_calls", 0), json.dumps(m)[:400]), dict(one, expected=m.get("expected"), observed=m.get("observed")))
         if res["thread_panics"]:
             rep.violation("thread-panicked", "%d worker threads panicked" % res["thread_panics"], one)
         if res["poisoned"]:
